@@ -84,7 +84,11 @@ def make_spec(seed, index: int, tier: str) -> dict:
         "nmut": r.choice([0, 1, 1, 1, 2, 2]),
         "mut_seed": r.randrange(1 << 30),
         "step_points": True,
+        # the interrupted build is a rebuild phase of a watching director (edits arrive as file events)
+        "watch": r.random() < 0.2,
     }
+    if spec["watch"]:
+        spec["nmut"] = max(1, spec["nmut"])
     return spec
 
 
@@ -98,7 +102,10 @@ def build_models(spec):
     rm = random.Random(spec["mut_seed"])
     for _ in range(spec["nmut"]):
         for _try in range(8):  # a mutation that does not apply to this model is drawn again
-            model1, kind = projgen.mutate(rm, model1, rm.choice(MUTATION_KINDS))
+            kind = rm.choice(MUTATION_KINDS)
+            if spec.get("watch") and kind == "change_env":
+                kind = "change_source"  # a watching director keeps the environment it started with
+            model1, kind = projgen.mutate(rm, model1, kind)
             if kind != "none":
                 break
         applied.append(kind)
@@ -236,6 +243,18 @@ class _Case:
         from simdirector import SimDirector
 
         sim = SimDirector(copy.deepcopy(self.project0), seed=self.spec["model_seed"] & 0xFFFF)
+        if self.spec.get("watch"):
+            first = sim.build(njob=self.spec["njob"], resources=self.model0.resources, watch=True,
+                              schedule=_schedule(self.spec["sched"], 11))
+            if first.status != "done" or not first.watching:
+                sim.close()
+                return None
+            # scripts change at once (the plan file itself is one of the edits the watcher sees)
+            for edit in self.edits:
+                if edit[0] in ("script", "setenv"):
+                    sim.apply([edit])
+            sim.project.rules = list(self.project1.rules)
+            return sim
         if self.spec["nmut"]:
             first = sim.build(njob=self.spec["njob"], resources=self.model0.resources,
                               schedule=_schedule(self.spec["sched"], 11))
@@ -249,6 +268,22 @@ class _Case:
     def build_kwargs(self):
         return {"njob": self.spec["njob"], "resources": self.resources,
                 "schedule": _schedule(self.spec["sched"], self.spec["model_seed"] & 0xFFFF)}
+
+    def interrupted_build(self, sim, on_commit=None, crash_after_commit=None, crash_in_step=None):
+        """The build that the crash points refer to: a fresh director, or the rebuild phase of a watching one."""
+        if not self.spec.get("watch"):
+            kw = self.build_kwargs()
+            if crash_after_commit is not None:
+                kw["crash_after_commit"] = crash_after_commit
+            if crash_in_step is not None:
+                kw["crash_in_step"] = crash_in_step
+            return sim.build(**kw, on_commit=on_commit)
+        session = sim.session
+        session.crash_after_commit = crash_after_commit
+        session.crash_in_step = crash_in_step
+        session.on_commit = on_commit
+        file_edits = [e for e in self.edits if e[0] not in ("script", "setenv")]
+        return sim.watch_rebuild(file_edits, schedule=_schedule(self.spec["sched"], self.spec["model_seed"] & 0xFFFF))
 
     def observer(self, where, point, state):
         def on_commit(sim, k):
@@ -292,8 +327,8 @@ class _Case:
             return
         with sim:
             sources = set(self.project1.initial_files())
-            ref = sim.build(**self.build_kwargs(), on_commit=self.observer("reference build", "-", {}))
-        self.count("reference-builds")
+            ref = self.interrupted_build(sim, on_commit=self.observer("reference build", "-", {}))
+        self.count("reference-builds" + (":watch-phase" if self.spec.get("watch") else ""))
         self.count(f"reference-status:{ref.status}:{ref.returncode.value if ref.returncode is not None else 'x'}")
         if ref.status != "done":
             self.finding("reference-build-" + ref.status, f"the uninterrupted build ended with status {ref.status}",
@@ -311,7 +346,15 @@ class _Case:
             if other is None:
                 continue
             with other:
-                res = other.build(njob=self.spec["njob"], resources=self.resources, schedule=_schedule(name, seed))
+                if self.spec.get("watch"):
+                    saved = self.spec["sched"]
+                    self.spec["sched"] = name
+                    try:
+                        res = self.interrupted_build(other)
+                    finally:
+                        self.spec["sched"] = saved
+                else:
+                    res = other.build(njob=self.spec["njob"], resources=self.resources, schedule=_schedule(name, seed))
             self.count("reference-builds-other-schedules")
             if res.status == "done":
                 self.ref_keys.add(self.outcome_key(res))
@@ -334,12 +377,10 @@ class _Case:
             return
         ref = self.ref
         with sim:
-            kw = self.build_kwargs()
             if point[0] == "commit":
-                kw["crash_after_commit"] = point[1]
+                crashed = self.interrupted_build(sim, crash_after_commit=point[1])
             else:
-                kw["crash_in_step"] = (point[1], point[2], point[3])
-            crashed = sim.build(**kw)
+                crashed = self.interrupted_build(sim, crash_in_step=(point[1], point[2], point[3]))
             self.count(f"crash-points:{point[0]}")
             if crashed.status != "crashed":
                 self.count(f"crash-point-not-reached:{crashed.status}")
@@ -348,6 +389,19 @@ class _Case:
                                  f"the build to be interrupted at {point} ended with status {crashed.status}",
                                  point=point, error=(crashed.error or "")[-1500:])
                 return
+            # one kill point in seven: the restart itself is killed too, after a few commits
+            h = int(hashlib.sha1(repr((self.spec["id"], point)).encode()).hexdigest()[:6], 16)
+            if h % 7 == 0:
+                second = sim.build(njob=self.spec["njob"], resources=self.resources, strict=True,
+                                   schedule=_schedule(self.spec["restart_sched"], h % 1000),
+                                   crash_after_commit=1 + (h // 7) % 14)
+                self.count("second-kill:" + second.status)
+                if second.status in ("error", "hang"):
+                    self.finding("restart-" + second.status, f"restart after a kill at {point} (to be killed again) "
+                                 f"ended with status {second.status}", point=point, error=(second.error or "")[-2000:])
+                    return
+                for sig, text in commit_invariants(sim):
+                    self.finding(sig, f"database left by a second kill after {point}: {text}", point=point)
             interrupted = {}
             for label, st, detached in sim.query(SQL_INTERRUPTED):
                 interrupted[label] = (st, detached)
